@@ -68,7 +68,12 @@ def stepOp (sys : Sys) (op : Json) : Sys × Json :=
   | "addFact" =>
     if !jobjOK op "fact" then (sys, errJ "input") else
     let (s, r) := sys.at n (locAddFact c id (jobj op "fact") now); (s, res r Json.str)
-  | "remFact" => let (s, r) := sys.at n (locRemFact c id now); (s, res r Json.str)
+  | "remFact" =>
+    let before := match sys.get? n with | some l => l.st.facts | none => []
+    let (s, r) := sys.at n (locRemFact c id now)
+    let after := match s.get? n with | some l => l.st.facts.map (·.1) | none => []
+    -- the cascade specification: what the deleteWith closure of `id` leaves
+    ((s, (res r Json.str).setObjVal! "spec_left" (strsJ ((specRem before id).map (·.1))) |>.setObjVal! "left" (strsJ after)))
   | "getFact" => let (s, r) := sys.at n (locGetFact c id now); (s, res r objJ)
   | "search" =>
     let p := jobj op "pattern"
@@ -87,7 +92,10 @@ def stepOp (sys : Sys) (op : Json) : Sys × Json :=
   | "getRule" => let (s, r) := sys.at n (locGetRule c id now); (s, res r objJ)
   | "searchRules" =>
     let ev := jobj op "event"
-    let spec := specDispatch sys n ev now
+    let spec := if jbool op "inherited" then specDispatch sys n ev now else
+      (match sys.get? n with
+       | some l => (match specDispatchLocal l.st.facts ev now with | .ok f => okJ (found2J f) | .error e => errJ e)
+       | none => Json.null)
     let (s, r) := sysSearchRules sys c n ev (jbool op "inherited") now
     (s, (res r (fun l => strsJ (l.map (·.1)))).setObjVal! "spec" spec)
   | "listRules" => let (s, r) := sysListRules sys c n (jbool op "inherited") now; (s, res r strsJ)
